@@ -223,6 +223,10 @@ func (h *H) checkAdmission(rec *Rec, res string, before, after *Snap) {
 		}
 		if expired(m.Tx.Expire) {
 			viol = append(viol, "expired")
+		} else if x := m.Tx.Expire; x > types.ExpireBound && x <= types.TxHeightFlag && x < e.Now()+60 {
+			// a time-based Expire that the next block's time may already have passed: the mempool treats a
+			// transaction expiring within the next 60 s of wall-clock time as expired for the next block
+			viol = append(viol, "expiring-within-60s")
 		}
 		if !m.ToOK {
 			viol = append(viol, "invalid-recipient")
